@@ -74,7 +74,8 @@ FieldNames == {<<p, u, b>> : p \in 0..2, u \in BOOLEAN, b \in Bases}
 Escape(n) == IF n[2] \/ (n[1] > 0 /\ "EscapeOnce" \notin Dev) \/ (n[1] = 0 /\ ~n[2] /\ n[3] \in ReservedBases)
              THEN <<n[1] + 1, n[2], n[3]>> ELSE n
 Plain(n) == n[1] = 0 /\ ~n[2]
-EscapeInjective == \A a, b \in FieldNames : a # b => Escape(a) # Escape(b)
+\* (nops >= 0 makes these state-level formulas: TLC reports a constant-level invariant that is false in a way of its own)
+EscapeInjective == nops >= 0 /\ \A a, b \in FieldNames : a # b => Escape(a) # Escape(b)
 \* an escaped name is never one of Splunk's, never one of the writer's own two, never starts with an underscore
-EscapedSafe == \A a \in FieldNames : LET e == Escape(a) IN ~(Plain(e) /\ e[3] \in ReservedBases) /\ ~(e[1] = 0 /\ e[2])
+EscapedSafe == nops >= 0 /\ \A a \in FieldNames : LET e == Escape(a) IN ~(Plain(e) /\ e[3] \in ReservedBases) /\ ~(e[1] = 0 /\ e[2])
 =============================================================================
